@@ -263,8 +263,10 @@ fn cmd_check(args: &[String]) -> i32 {
             "reference models and trigger predicates are part of the trusted base (validated against the code, see DESIGN.md §3, §7)"
         ]
     });
-    let epath = format!("{}/evidence/{}.json", verif_root(), prop);
-    let _ = std::fs::create_dir_all(format!("{}/evidence", verif_root()));
+    // sensitivity runs on deliberately broken trees (tools/mutants.sh) must not overwrite the evidence of the unchanged tree
+    let edir = std::env::var("VERIF_EVIDENCE_DIR").unwrap_or_else(|_| format!("{}/evidence", verif_root()));
+    let epath = format!("{}/{}.json", edir, prop);
+    let _ = std::fs::create_dir_all(&edir);
     if let Err(e) = std::fs::write(&epath, serde_json::to_string_pretty(&ev).unwrap()) {
         eprintln!("harness error: cannot write {}: {}", epath, e);
         return 2;
